@@ -51,8 +51,9 @@ THEOREMS = {
 
 # ------------------------------------------------------------------ token-level tie helpers
 def ser_real_tokens(text):
-    declast, _ = dc.mods()
-    toks = list(declast.tokenize(text))
+    toks = dc.safe_tokenize(text)
+    if toks is None:
+        return "raise"
     if not toks:
         return "~"
     return " ".join("%s:%s" % (t.typ, common.enc(t.value)) for t in toks)
@@ -84,9 +85,10 @@ def token_level_domain(a, text):
 def attr_text_stable(toks):
     """attribute values in the source re-tokenise to themselves after "".join (e.g. not `1 2`)"""
     text = dc.join(toks)
-    declast, _ = dc.mods()
     depth, cur, ok = 0, [], True
-    it = list(declast.tokenize(text))
+    it = dc.safe_tokenize(text)
+    if it is None:
+        return False
     i = 0
     while i < len(it):
         t = it[i]
@@ -102,10 +104,8 @@ def attr_text_stable(toks):
                     cur.append(it[i].value)
                 i += 1
             joined = "".join(cur)
-            try:
-                if [x.value for x in declast.tokenize(joined)] != cur:
-                    ok = False
-            except Exception:  # noqa
+            jt = dc.safe_tokenize(joined)
+            if jt is None or [x.value for x in jt] != cur:
                 ok = False
             continue
         i += 1
@@ -151,8 +151,11 @@ def rt_class(a, text):
     def symbol_name(d):
         n = d.declarator.name if d.declarator is not None else None
         nn = d.name
-        lib = dc.library()
-        return any(x is not None and lib.unqualified_lookup(x) is not None for x in (n, nn))
+        try:
+            lib = dc.library()
+            return any(isinstance(x, str) and lib.unqualified_lookup(x) is not None for x in (n, nn))
+        except Exception:  # noqa
+            return False
 
     def templ(d):
         return any(t.template_arguments or t.const or t.volatile or t.storage for t in d.template_arguments)
@@ -547,6 +550,11 @@ def oracle_postgen(ctx):
             if res is None:
                 stat["rejected_by_generate"] += 1
                 continue
+            if isinstance(res, Exception):
+                stat["failures"] += 1
+                ctx.fail("postgen:internal:" + type(res).__name__, "generate_functions on %r raises %s: %s" % (
+                    decl, type(res).__name__, " ".join(str(res).split())[:120]), {"kind": "postgen", "decl": decl, "language": lang})
+                continue
             lib, fns = res
             for fn in fns:
                 stat["functions"] += 1
@@ -584,6 +592,8 @@ def _postgen_library(d):
             generate.generate_functions(lib, cfg)
     except (RuntimeError, SystemExit):
         return None
+    except Exception as e:  # noqa
+        return e
     return lib, list(lib.functions)
 
 
@@ -728,7 +738,7 @@ def correspondence(ctx, cases, kinds, ok, want_tokens=True, outcome_only=False, 
             try:
                 want = "ok %s | %s | %s" % (ser_real_tokens(a.gen_decl()), ser_real_tokens(a.gen_arg_as_cxx()),
                                             ser_real_tokens(a.gen_arg_as_c()))
-            except dc.INTERNAL:
+            except Exception:  # noqa
                 continue
             if want != m:
                 kdis.append({"decl": s, "impl": want[:300], "model": m[:300]})
@@ -741,7 +751,8 @@ def correspondence(ctx, cases, kinds, ok, want_tokens=True, outcome_only=False, 
 
 def run(ctx):
     thorough = ctx.tier == "thorough"
-    extract_decl.write()
+    if dc.guarded(ctx, "translator:extract_decl", extract_decl.write) is None:
+        ctx.tie_broken("translator", "Gen/DeclTables.lean could not be regenerated from the tree under test")
     ok = ctx.lean(MODULES, THEOREMS, extra_targets=("drv_decl",))
     r = common.rng("c09")
     ctx.cov["trusted_base"] = [
@@ -761,38 +772,57 @@ def run(ctx):
     ]
     depth = 4 if thorough else 3
     n = 150000 if thorough else 24000
-    cases = corpus_cases("c09.txt")
-    kinds = ["corpus"] * len(cases)
-    sp_cases = special_shapes()
-    cases += sp_cases
-    kinds += ["special"] * len(sp_cases)
-    c2, k2, gstats = streams(r, n, depth)
-    cases += c2
-    kinds += k2
-    impl, asts = correspondence(ctx, cases, kinds, ok)
-    ctx.note("special_shapes", len(sp_cases))
-    ctx.note("generator_branches", dict(sorted(gstats.items(), key=lambda kv: -kv[1])[:40]))
-    for s, a in list(zip(cases, impl))[:: max(1, len(cases) // 6)][:6]:
-        ctx.sample({"decl": s, "impl": a[:160]})
+    st = {"cases": [], "kinds": [], "impl": [], "asts": [], "sp": []}
 
-    # ---- oracle (a): parse(render(parse d)) == parse d on the real parser
-    classes = {}
-    for s, a, line in zip(cases, asts, impl):
-        if a is None or not line.startswith("ok "):
-            continue
-        res = oracle_roundtrip(a, s)
-        ctx.count(1)
-        if res:
-            cls, why = res
-            classes[cls] = classes.get(cls, 0) + 1
-            ctx.fail("roundtrip:" + cls, why, {"kind": "roundtrip", "decl": s})
-    ctx.note("roundtrip_failure_classes", classes)
+    def phase_tie():
+        cases = corpus_cases("c09.txt")
+        kinds = ["corpus"] * len(cases)
+        sp_cases = special_shapes()
+        cases += sp_cases
+        kinds += ["special"] * len(sp_cases)
+        c2, k2, gstats = streams(r, n, depth)
+        cases += c2
+        kinds += k2
+        st["cases"], st["kinds"], st["sp"] = cases, kinds, sp_cases
+        impl, asts = correspondence(ctx, cases, kinds, ok)
+        st["impl"], st["asts"] = impl, asts
+        ctx.note("special_shapes", len(sp_cases))
+        ctx.note("generator_branches", dict(sorted(gstats.items(), key=lambda kv: -kv[1])[:40]))
+        for s, a in list(zip(cases, impl))[:: max(1, len(cases) // 6)][:6]:
+            ctx.sample({"decl": s, "impl": a[:160]})
 
-    # ---- reference semantics: cxxMeaning(ts) vs denote(parse ts) on every accepted input (model level), and
-    #      the BaseAgrees hypothesis of the meaning theorems
-    drv = common.Driver("drv_decl")
-    if drv.available() and ok:
-        acc = [(s, a) for s, a, line in zip(cases, asts, impl) if a is not None and line.startswith("ok ")]
+    def ensure_impl():
+        # the tie phase died before the implementation was run: run it now, on its own, for the oracles
+        if st["cases"] and not st["impl"]:
+            for s in st["cases"]:
+                line, a = dc.real_parse(s)
+                st["impl"].append(line)
+                st["asts"].append(a)
+
+    def phase_roundtrip():
+        # ---- oracle (a): parse(render(parse d)) == parse d on the real parser
+        classes = {}
+        for s, a, line in zip(st["cases"], st["asts"], st["impl"]):
+            if a is None or not line.startswith("ok "):
+                continue
+            try:
+                res = oracle_roundtrip(a, s)
+            except Exception as e:  # noqa
+                res = ("render-crash", "round-trip of %r raises %s" % (s, type(e).__name__))
+            ctx.count(1)
+            if res:
+                cls, why = res
+                classes[cls] = classes.get(cls, 0) + 1
+                ctx.fail("roundtrip:" + cls, why, {"kind": "roundtrip", "decl": s})
+        ctx.note("roundtrip_failure_classes", classes)
+
+    def phase_meaning():
+        # ---- reference semantics: cxxMeaning(ts) vs denote(parse ts) on every accepted input (model level), and
+        #      the BaseAgrees hypothesis of the meaning theorems
+        drv = common.Driver("drv_decl")
+        if not (drv.available() and ok):
+            return
+        acc = [(s, a) for s, a, line in zip(st["cases"], st["asts"], st["impl"]) if a is not None and line.startswith("ok ")]
         out = drv.run(["meaning " + dc.enc_tokens(dc.raw_tokens(s)) for s, _ in acc])
         mstat = {"accepted": len(acc), "reference_defined_and_valid": 0, "agree": 0, "by_class": {}}
         for (s, a), o in zip(acc, out):
@@ -820,36 +850,44 @@ def run(ctx):
         ctx.note("cxxMeaning_vs_denote", mstat)
         check_base_agrees(ctx, 5 if thorough else 4)
 
-    # ---- nested namespaces: qualified names of 1-4 components, same names at different depths
-    ncases = nested_cases()
-    nlib = dc.nested_library()
-    nimpl, nasts = correspondence(ctx, ncases, ["nested"] * len(ncases), ok, want_tokens=False, lib=nlib, op="parse2",
-                                  tag="nested")
-    nacc = [(s, a) for s, a, l in zip(ncases, nasts, nimpl) if a is not None and l.startswith("ok ") and a.name]
-    valid = gxx_valid(ncases, extract_decl.NESTED_CXX)
-    nrej = 0
-    for i, (s, l) in enumerate(zip(ncases, nimpl)):
-        if i in valid and not l.startswith("ok "):
-            nrej += 1
-            ctx.fail("qualified-rejected", "g++ accepts %r (names resolve through nested scopes) but check_decl rejects it: %s" % (
-                s, common.dec(l.split(" ", 1)[1]) if l.startswith("reject ") else l), {"kind": "nested", "decl": s})
-    nn = gxx_check(ctx, nacc, "nested", extra_head=extract_decl.NESTED_CXX, meaning_op="meaning2")
-    ctx.note("nested", {"cases": len(ncases), "accepted": len(nacc), "gxx_valid": len(valid), "valid_but_rejected": nrej,
-                        "gxx_compared": nn})
+    def phase_nested():
+        # ---- nested namespaces: qualified names of 1-4 components, same names at different depths
+        ncases = nested_cases()
+        nlib = dc.nested_library()
+        nimpl, nasts = correspondence(ctx, ncases, ["nested"] * len(ncases), ok, want_tokens=False, lib=nlib, op="parse2",
+                                      tag="nested")
+        nacc = [(s, a) for s, a, l in zip(ncases, nasts, nimpl) if a is not None and l.startswith("ok ") and a.name]
+        valid = gxx_valid(ncases, extract_decl.NESTED_CXX)
+        nrej = 0
+        for i, (s, l) in enumerate(zip(ncases, nimpl)):
+            if i in valid and not l.startswith("ok "):
+                nrej += 1
+                ctx.fail("qualified-rejected", "g++ accepts %r (names resolve through nested scopes) but check_decl rejects it: %s" % (
+                    s, common.dec(l.split(" ", 1)[1]) if l.startswith("reject ") else l), {"kind": "nested", "decl": s})
+        nn = gxx_check(ctx, nacc, "nested", extra_head=extract_decl.NESTED_CXX, meaning_op="meaning2")
+        ctx.note("nested", {"cases": len(ncases), "accepted": len(nacc), "gxx_valid": len(valid), "valid_but_rejected": nrej,
+                            "gxx_compared": nn})
 
+    def phase_compilers():
+        # ---- oracle (b): g++ / gcc
+        cand = cxx_candidates(common.rng("c09-gxx"), 4000 if thorough else 500, depth)
+        for t in st["sp"] or special_shapes():
+            line, a = dc.real_parse(t)
+            if a is not None and line.startswith("ok ") and a.name is not None:
+                cand.append((t, a))
+        ng = gxx_check(ctx, cand, "is_same")
+        nc = gcc_c_check(ctx, cand)
+        ctx.note("gxx_compared", ng)
+        ctx.note("gcc_c_compared", nc)
+
+    dc.guarded(ctx, "tie", phase_tie)
+    dc.guarded(ctx, "implementation-run", ensure_impl)
+    dc.guarded(ctx, "oracle-roundtrip", phase_roundtrip)
+    dc.guarded(ctx, "reference-semantics", phase_meaning)
+    dc.guarded(ctx, "nested-namespaces", phase_nested)
     # ---- oracle (c): declarations after the generate phase (attribute values as integers / True / text)
-    oracle_postgen(ctx)
-
-    # ---- oracle (b): g++ / gcc
-    cand = cxx_candidates(common.rng("c09-gxx"), 4000 if thorough else 500, depth)
-    for t in sp_cases:
-        line, a = dc.real_parse(t)
-        if a is not None and line.startswith("ok ") and a.name is not None:
-            cand.append((t, a))
-    ng = gxx_check(ctx, cand, "is_same")
-    nc = gcc_c_check(ctx, cand)
-    ctx.note("gxx_compared", ng)
-    ctx.note("gcc_c_compared", nc)
+    dc.guarded(ctx, "oracle-postgen", oracle_postgen, ctx)
+    dc.guarded(ctx, "oracle-compilers", phase_compilers)
 
 
 def replay(path):
